@@ -5,6 +5,7 @@ CONSTANTS
   MaxP = 3
   MinLens = {1, 2}
   OccRates = {2}
+  AllSentinelOrders = FALSE
   T = 1
 SPECIFICATION Spec
 INVARIANTS StrandSymmetry ExtensionLemma FwdInv BwdInv Final MemsFastLemma
